@@ -512,7 +512,7 @@ def exec_path(item):
     for li, dst in item["steps"]:
         op, a = labels[li]
         exp = states[dst]
-        hist.append([op, a])
+        hist.append([op, a, exp["oc"]])      # refused calls are tried on a copy (see below)
         nsteps += 1
         progress({"fmt": fmt, "op": op, "a": a, "exp_oc": exp["oc"], "len_before": len(pre)})
         base = {"kind": "step", "fmt": fmt, "op": op, "a": a, "cfg": cfg, "len_before": len(pre),
@@ -679,10 +679,8 @@ def case_gbcodec(c, r, cnt):
                        "observed": {"oc": oc, "feats": _unnorm(got), "exc": exc}})
         # diagnostics (never a verdict): does the writer produce the specified text, does the
         # reader understand every encoding the grammar allows
-        if ls2c(lines) == r["text"]:
-            cnt["text_same"] += 1
-        else:
-            cnt["text_diff"] += 1
+        if all(len(x.locs) == 1 for x in feats) and len(feats) <= 1:   # iteration orders are not specified
+            _text(cnt, "GbCodec." + kind, ls2c(lines) == r["text"] or bool(r["kb"]))
         for t in r.get("ref", []):
             try:
                 ok = gb_read_locstring(t) == want
@@ -714,12 +712,19 @@ def case_gbcodec(c, r, cnt):
         exp = [[cls, syms], int(start), [cls, syms], True]
         if got != exp:
             mm.append({"kind": "case", "spec": "GbCodec", "case": c, "kb": r["kb"], "expected": exp,
-                       "model_back": r["back"], "observed": got})
+                       "model_back": r["back"], "observed": got, "row": r})
         lines = g.get_fields("ORIGIN")[0][0]
-        cnt["text_same" if ls2c(lines) == r["text"] else "text_diff"] += 1
+        _text(cnt, "GbCodec.origin", ls2c(lines) == r["text"])
     else:
         raise KeyError(kind)
     return mm
+
+
+def _text(cnt, kind, same):
+    """diagnostic counter: does the written text equal the text the specification writes"""
+    cnt["text_same" if same else "text_diff"] += 1
+    if not same:
+        cnt["text_diff_kinds"][kind] = cnt["text_diff_kinds"].get(kind, 0) + 1
 
 
 def _fq_items(items):
@@ -736,7 +741,7 @@ def case_seqcodec(c, r, cnt):
 
     def report(exp, got, what):
         mm.append({"kind": "case", "spec": "SeqCodec", "case": c, "kb": r["kb"], "what": what,
-                   "expected": exp, "model_back": r["back"], "observed": got})
+                   "expected": exp, "model_back": r["back"], "observed": got, "row": r})
 
     if kind == "fastq_rt":
         from biotite.sequence.io.fastq import FastqFile
@@ -765,7 +770,7 @@ def case_seqcodec(c, r, cnt):
                 got = ["raised", _exc(e)]
             if got != want:
                 report(want, got, name + " -> read")
-        cnt["text_same" if ls2c(text.splitlines()) == r["text"] else "text_diff"] += 1
+        _text(cnt, "SeqCodec.fastq_rt", ls2c(text.splitlines()) == r["text"])
     elif kind == "fasta_rt":
         from biotite.sequence.io.fasta import FastaFile
 
@@ -793,7 +798,7 @@ def case_seqcodec(c, r, cnt):
                 got = ["raised", _exc(e)]
             if got != want:
                 report(want, got, name + " -> read")
-        cnt["text_same" if ls2c(text.splitlines()) == r["text"] else "text_diff"] += 1
+        _text(cnt, "SeqCodec.fasta_rt", ls2c(text.splitlines()) == r["text"])
     elif kind == "conv":
         import biotite.sequence as bs
 
@@ -911,9 +916,9 @@ def case_gffcodec(c, r, cnt):
             mm.append({"kind": "case", "spec": "GffCodec", "case": c, "kb": r["kb"],
                        "expected": {"oc": r["oc"], "view": want},
                        "model_back": {"oc": r["oc"], "view": [r["back"]] if r["oc"] == "ok" else []},
-                       "observed": {"oc": oc, "view": p["view"], "reread": p["reread"]}})
+                       "observed": {"oc": oc, "view": p["view"], "reread": p["reread"]}, "row": r})
         if r["oc"] == "ok" and oc == "ok":
-            cnt["text_same" if p["lines"][1:] == r["text"] else "text_diff"] += 1
+            _text(cnt, "GffCodec.entry", p["lines"][1:] == r["text"])
     elif kind == "annot":
         feats = []
         for d in c[1]:
@@ -935,7 +940,7 @@ def case_gffcodec(c, r, cnt):
             mm.append({"kind": "case", "spec": "GffCodec", "case": c, "kb": r["kb"],
                        "expected": {"oc": r["oc"], "feats": sorted(map(repr, want))},
                        "model_back": {"oc": r["oc"], "feats": sorted(map(repr, {norm_gfeat_spec(v) for v in r["back"]}))},
-                       "observed": {"oc": oc, "feats": sorted(map(repr, got))}})
+                       "observed": {"oc": oc, "feats": sorted(map(repr, got))}, "row": r})
     else:
         raise KeyError(kind)
     return mm
@@ -951,7 +956,7 @@ def exec_cases(item):
 
     h = CASE_HANDLERS[item["spec"]]
     cnt = {"text_same": 0, "text_diff": 0, "ref_ok": 0, "ref_fail": 0, "ref_fail_examples": [], "cases": 0,
-           "kinds": {}}
+           "kinds": {}, "text_diff_kinds": {}}
     mm = []
     for txt in item["states"]:
         st = {k: to_py(v) for k, v in parse_state(txt).items()}
@@ -1079,7 +1084,7 @@ def run(ctx):
     # ---- S2a: every transition of the four state graphs -------------------------------
     graph = {}
     items = []
-    limit = 6000 if quick else None
+    limit = 6000 if quick else 40000      # paths per machine
     for fmt, mod, _qc, _tc in MACHINES:
         g = dot.load(dots[fmt])
         if not g.edges:
@@ -1157,7 +1162,7 @@ def run(ctx):
     citems = []
     for mod, _qc, _tc in CODECS:
         path = dumps[mod] + ".dump" if os.path.exists(dumps[mod] + ".dump") else dumps[mod]
-        sts = _split_dump(path)
+        sts = sorted(_split_dump(path))       # TLC's dump order depends on worker scheduling
         if not sts:
             raise RuntimeError(f"{mod}: empty dump")
         k = 60
@@ -1166,6 +1171,7 @@ def run(ctx):
     cres = pool.run_isolated("harness.drivers.c12:exec_cases", citems, item_timeout=120)
     kinds, gc = {}, {"text_same": 0, "text_diff": 0, "ref_ok": 0, "ref_fail": 0}
     examples = []
+    tdk = {}
     ncases = 0
     for it, r in zip(citems, cres):
         if r is None:
@@ -1182,6 +1188,8 @@ def run(ctx):
         for kk in gc:
             gc[kk] += r[kk]
         examples += r["ref_fail_examples"]
+        for kk, v in r["text_diff_kinds"].items():
+            tdk[kk] = tdk.get(kk, 0) + v
         for mm in r["mismatch"]:
             mm["stage"] = "S2"
             ctx.mismatch(mm)
@@ -1189,6 +1197,8 @@ def run(ctx):
     ctx.cov["grammar_conformance"].update(
         {"codec_text_same": gc["text_same"], "codec_text_differs": gc["text_diff"],
          "reference_encodings_read_ok": gc["ref_ok"], "reference_encodings_read_wrong": gc["ref_fail"]})
+    if tdk:
+        ctx.note(f"S2: written text differs from the specified text (round trips agree; diagnostic only): {tdk}")
     if gc["ref_fail"]:
         ctx.note(f"{gc['ref_fail']} grammar-allowed location strings are not read back as their location "
                  f"(diagnostic, e.g. {examples[:3]})")
@@ -1204,7 +1214,15 @@ def run(ctx):
     ctx.sample({"s2_case": citems[0]["spec"], "state": citems[0]["states"][0][:300]})
 
     # ---- S3 -----------------------------------------------------------------------------
-    stage_s3(ctx)
+    # A disagreement found by S2 must be reported as such: if the recording stage cannot
+    # complete on a tree that already violates the property (generators starved of accepted
+    # calls, unparsable text), that is a consequence, not a machinery failure.
+    try:
+        stage_s3(ctx)
+    except (RuntimeError, Vacuity, tlc.TLCFailure) as e:
+        if not ctx.violations:
+            raise
+        ctx.note(f"S3 not completed after S2 violations: {str(e)[:300]}")
 
 
 # --------------------------------------------------------------------------- S3: recording
@@ -1405,6 +1423,7 @@ def gen_history(rng, fmt, length):
             f2, oc, out = apply_real(ad, target, op, a, cfg)
         ev = _hist_event(fmt, op, a, oc, out, safe_project(ad, f2, cfg))
         ev["_kept"] = in_dom
+        ev["on_copy"] = not in_dom
         events.append(ev)
         if in_dom:
             f = f2
@@ -1720,7 +1739,8 @@ def validate(ctx, traces):
                           "expected": {"oc": exp_oc, "view": exp_view, "alt": alt, "out": exp_out},
                           "observed": {"oc": e["oc"], "view": e["view"], "view_ok": e["vok"], "out": e["out"],
                                        "reread": {"oc": e["rr"], "view": e["rview"]}, "iter": e["iter"], "exc": e.get("exc")},
-                          "history": [[x["op"], x["a"]] for x in traces[tid - 1][:idx]]})
+                          "history": [[x["op"], x["a"], "copy" if x.get("on_copy") else "ok"]
+                                      for x in traces[tid - 1][:idx]]})
         else:
             want, back = m[5], m[6]
             rec = {"stage": "S3", "kind": "case", "case": [e["fmt"], e["a"]], "kb": kb, "trace": tid, "event": idx,
@@ -1796,3 +1816,86 @@ def classify(mm):
                 return FIND_GFFHASH
             return None
     return None
+
+
+# --------------------------------------------------------------------------- replay
+def replay(record):
+    """Re-execute one stored mismatch against the current code (the expected values are the
+    ones TLC computed when the record was written)."""
+    kind = record.get("kind")
+    if kind in ("step", "event"):
+        import copy
+
+        fmt = record["fmt"]
+        ad = ADAPTERS[fmt]
+        calls = record.get("path") or record.get("history")
+        cfg = record.get("cfg")
+        if cfg is None:     # recorded histories start with the constructor call
+            a0 = calls[0][1]
+            cfg = {"cpl": a0[0]} if fmt == "fasta" else {"off": a0[0], "cpl": a0[1]} if fmt == "fastq" else {}
+        f = ad.new(cfg)
+        last = None
+        exp = record["expected"]
+        for k, call in enumerate(calls):
+            op, a = call[0], call[1]
+            how = call[2] if len(call) > 2 else "ok"      # "ok": executed on the object itself
+            if op == "new":
+                continue
+            final = k == len(calls) - 1
+            on_copy = how != "ok" or (final and exp.get("oc") != "ok")
+            target = copy.deepcopy(f) if on_copy else f
+            if op == "reload":
+                try:
+                    f2, oc, out = _reload(ad, target, cfg), "ok", []
+                except Exception as e:  # noqa: BLE001
+                    f2, oc, out = target, "Rejected", ["exc", _exc(e)]
+            else:
+                f2, oc, out = apply_real(ad, target, op, a, cfg)
+            p = safe_project(ad, f2, cfg)
+            last = {"op": op, "a": a, "oc": oc, "out": out, "view": p["view"], "reread": p["reread"]}
+            if not final and not on_copy:
+                f = f2
+        rr = last["reread"]
+        if exp.get("oc") == "ok":
+            bad = last["oc"] != "ok" or last["view"] != exp["view"] or rr["oc"] != "ok" or rr["view"] != exp["view"]
+        else:
+            alt = exp.get("alt") or []
+            fine = (last["oc"] == "Rejected" and last["view"] == exp["view"] and rr.get("view") in (exp["view"],)) or \
+                   (alt and last["oc"] == "ok" and last["view"] == alt[0] and rr.get("view") == alt[0])
+            if fmt in ("fasta", "fastq") and exp["view"] == [] and last["oc"] == "Rejected" and last["view"] == []:
+                fine = True
+            bad = not fine
+        return {"last": last, "expected": exp, "mismatch": bool(bad)}
+    if kind == "case":
+        spec = record.get("spec", "")
+        case = record["case"]
+        exp = record["expected"]
+        if spec == "GbCodec" and case[0] in ("loc", "feat", "annot", "gbfeat"):
+            if case[0] == "loc":
+                feats = [mk_feature(s2c("gene"), case[1], [])]
+            elif case[0] == "feat":
+                feats = [mk_feature(s2c("gene"), case[1][0], case[1][1])]
+            elif case[0] == "annot":
+                feats = [mk_feature(d["key"], d["locs"], d["qual"]) for d in case[1]]
+            else:
+                feats = [mk_feature(k, [dict(first=x[0], last=x[1], strand=x[2], defect=x[3]) for x in ls], q)
+                         for k, ls, q in case[1]]
+            oc, got, lines, exc = gb_annotation_roundtrip(feats)
+            obs = {"oc": oc, "feats": _unnorm(got), "exc": exc, "text": lines}
+            return {"observed": obs, "expected": exp,
+                    "mismatch": not (oc == exp["oc"] and _unnorm(got) == json.loads(json.dumps(exp["feats"])))}
+        cnt = {"text_same": 0, "text_diff": 0, "ref_ok": 0, "ref_fail": 0, "ref_fail_examples": [], "cases": 0,
+               "kinds": {}, "text_diff_kinds": {}}
+        row = record.get("row")
+        if row is not None and spec in CASE_HANDLERS:
+            mm = CASE_HANDLERS[spec](case, row, cnt)
+            return {"observed": [m.get("observed") for m in mm], "expected": exp, "mismatch": bool(mm)}
+        return {"error": "record carries no specification row; re-run the check", "record_kind": kind}
+    return {"error": "record kind not replayable", "record_kind": kind}
+
+
+MANIFEST = {
+    "technique": "TLA+ specifications of the four sequence file classes as text + incremental index (specs/C12: FastaOps, FastqOps, GbFileOps, GffOps with edit-history machines Fasta, Fastq, GbFile, Gff) and of the codecs (SeqCodec, GbFeature/GbCodec, GffAnnot/GffCodec) on character-code text, model-checked by TLC; every transition of the four state graphs and every codec case replayed into the real classes; recorded random histories and round trips re-computed by TLC (Trace.tla)",
+    "level_text": "TLC explores all edit histories of FastaFile, FastqFile, GenBankFile and GFFFile on small key/value universes (<=3 entries or fields, wrapped multi-line values, '@' and '+' as first score characters, in- and out-of-range list indices) and checks that the incrementally maintained index equals a full re-scan, that the live mapping/list view equals the ordered mapping/list the edits denote and the meaning of the written text, and that refused calls change nothing; it checks on exhaustive case tables that the implementation-shaped writers followed by the readers are the identity (FASTQ line automaton for every wrapping and both offsets, GenBank locations with every expressible defect / strand / join, qualifier quoting, ORIGIN blocks around the 10/60 boundaries, GFF3 percent quoting and ID grouping, sequence converters, load/save helpers) except on exactly the named known-bad inputs. Every transition of the four graphs and every table row is then executed against the real classes (live view, view of the re-read text, iterator view, outcome and returned value compared after every call), and seeded random histories / round trips with long values, random ASCII text and large positions are recorded and re-computed by TLC with the same operators.",
+    "level_note": "Bounded: exhaustive only for the small universes of the configs (<=3 entries/fields, sequences <=7 symbols, positions {1,2,12} etc.); beyond that only recorded executions. Domains are explicit Dom_* predicates (stripped headers, ASCII, no double quote in qualifier values, sequence start >= 1, unique GFF IDs, type guess of get_sequence only where determined). Where a replaced FASTA/FASTQ entry lands, and the exact text written (ORIGIN position numbers after the first line, attribute order), are not part of the verdict: text conformance and reading of grammar-allowed encodings the library never writes are reported as diagnostics only. The repository's own tests are not used as trace drivers. Trusted: TLC, the TLA+ value parser, the projections through the public API, io.StringIO.",
+}
